@@ -3,6 +3,7 @@ import Proofs.Arith
 import Proofs.Bank
 import Proofs.Moves
 import Proofs.LivenessBank
+import Pegnet.Generated.Facts
 /-
   C16 — PEG conversion bank (legacy era): limit, proportional yield, refund.
   Statements are about `payouts` / `refund`, the model functions the correspondence check runs
@@ -147,6 +148,25 @@ theorem no_request_paid_more_than_the_bank (bank : Nat) (reqs : List (TxKey × N
 
 end Pegnet.C16
 
+namespace Pegnet.C16
+open Pegnet
+/-- the shipped schedule, regenerated from config/activations.go and fat/fat2/activations.go on every
+    run, against the values this property was read with: the heights that bound the bank era and switch it to the bank table. Every scenario of the harness
+    runs on a compressed schedule that overwrites these constants, so nothing else would notice one of
+    them moving; a moved height is a different protocol, not a rewrite. -/
+theorem shipped_schedule :
+    let a := Generated.activations
+    Generated.activationsComplete = true ∧ a.convLimit = 222270 ∧ a.v4 = 231620 ∧ a.v20 = 258796 := by
+  decide
+end Pegnet.C16
+
+namespace Pegnet.C16
+open Pegnet
+/-- the bank a block starts with (regenerated): 5,000 PEG -/
+theorem shipped_bank : Generated.bankBaseAmount = 500000000000 := by
+  decide
+end Pegnet.C16
+
 #print axioms Pegnet.C16.bank_limit
 #print axioms Pegnet.C16.full_if_fits
 #print axioms Pegnet.C16.exact_when_over
@@ -160,3 +180,5 @@ end Pegnet.C16
 #print axioms Pegnet.C16.bank_pass_never_fails
 #print axioms Pegnet.C16.no_request_paid_more_than_the_bank
 #print axioms Pegnet.C16.bank_pass_never_fails_distinct_entries
+#print axioms Pegnet.C16.shipped_schedule
+#print axioms Pegnet.C16.shipped_bank
